@@ -1207,6 +1207,9 @@ func notFreshSlice(v ssa.Value, cur, top *ssa.Function, closure []*ssa.Function,
 		if callee := x.Call.StaticCallee(); callee != nil && callee.Name() == "Clone" && callee.Pkg != nil && callee.Pkg.Pkg.Path() == "slices" {
 			return ""
 		}
+		if why, done := helperResultFresh(x, 0, top, closure, seen, depth); done {
+			return why
+		}
 		return "result of a call (" + x.Call.Value.Name() + ")"
 	case *ssa.Phi:
 		for _, e := range x.Edges {
@@ -1274,7 +1277,42 @@ func notFreshSlice(v ssa.Value, cur, top *ssa.Function, closure []*ssa.Function,
 		if ta, ok := x.Tuple.(*ssa.TypeAssert); ok {
 			return "one of the input signatures (" + ta.X.Name() + ".(…))"
 		}
+		// the result of a private helper of the closure: what the helper returns at that position
+		if call, ok := x.Tuple.(*ssa.Call); ok {
+			if why, done := helperResultFresh(call, x.Index, top, closure, seen, depth); done {
+				return why
+			}
+		}
 		return "a component of " + x.Tuple.Name()
 	}
 	return v.String()
+}
+
+// helperResultFresh follows the idx-th result of a call to a function of the closure into that function's returns.
+func helperResultFresh(call *ssa.Call, idx int, top *ssa.Function, closure []*ssa.Function, seen map[ssa.Value]bool, depth int) (string, bool) {
+	callee := call.Call.StaticCallee()
+	if callee == nil || callee.Blocks == nil {
+		return "", false
+	}
+	in := false
+	for _, hf := range closure {
+		if hf == callee {
+			in = true
+		}
+	}
+	if !in {
+		return "", false
+	}
+	for _, r := range returnsOf(callee) {
+		if idx >= len(r.Results) {
+			return "", false
+		}
+		if isNilConst(r.Results[idx]) {
+			continue
+		}
+		if why := notFreshSlice(r.Results[idx], callee, top, closure, seen, depth+1); why != "" {
+			return why, true
+		}
+	}
+	return "", true
 }
